@@ -45,6 +45,9 @@ type attempt struct {
 	ReturnedAfterRelease bool   `json:"returned_after_peer_released,omitempty"`
 	FollowUp             string `json:"follow_up,omitempty"`
 	RequestHex           string `json:"request_frame_hex,omitempty"`
+	Harness              string `json:"harness_problem,omitempty"`
+	HealthyControl       string `json:"healthy_control,omitempty"` // stalledconn: the request made before the connection was stalled
+	ConnStatus           string `json:"nats_conn_status_at_return,omitempty"`
 }
 
 // peerFlags is the peer-side state of one attempt (one mutex).
